@@ -244,9 +244,9 @@ LEX = {
     'untypedAtomic': ['a'], 'string': None, 'normalizedString': ['a b', 'c'], 'token': ['a b', 'c'],
     'language': ['en'], 'NMTOKEN': ['a'], 'Name': ['a:b'], 'NCName': ['a', 'b'], 'ID': ['a'], 'IDREF': ['a'],
     'ENTITY': ['a'], 'decimal': None, 'integer': None, 'nonPositiveInteger': ['-3'], 'negativeInteger': ['-3'],
-    'long': ['7'], 'int': ['7'], 'short': ['7', '8'], 'byte': ['7'], 'nonNegativeInteger': ['7'],
-    'positiveInteger': ['7'], 'unsignedLong': ['7'], 'unsignedInt': ['7'], 'unsignedShort': ['7'],
-    'unsignedByte': ['7'], 'float': ['1.5'], 'double': None, 'boolean': None, 'duration': ['P1Y2DT3H'],
+    'long': ['7'], 'int': ['7'], 'short': ['-7', '8'], 'byte': ['7'], 'nonNegativeInteger': ['7'],
+    'positiveInteger': ['7'], 'unsignedLong': ['7'], 'unsignedInt': ['3000000000'], 'unsignedShort': ['40000'],
+    'unsignedByte': ['200'], 'float': ['1.5'], 'double': None, 'boolean': None, 'duration': ['P1Y2DT3H'],
     'yearMonthDuration': ['P1Y2M'], 'dayTimeDuration': ['P1DT2H'], 'dateTime': ['2001-02-03T04:05:06'],
     'date': ['2001-02-03'], 'time': ['04:05:06'], 'gYearMonth': ['2001-02'], 'gYear': ['2001'],
     'gMonthDay': ['--02-03'], 'gDay': ['---03'], 'gMonth': ['--02'], 'hexBinary': ['0fb7'],
@@ -671,12 +671,15 @@ ArgsFor(p) == {v \\in 1..NV : p \\in MatchRow[v]}
 SetMin(S) == CHOOSE x \\in S : \\A y \\in S : x <= y
 SetMax(S) == CHOOSE x \\in S : \\A y \\in S : x >= y
 Median(S) == CHOOSE x \\in S : Cardinality({y \\in S : y < x}) = Cardinality(S) \\div 2
-ArgPick(p) == LET c == ArgsFor(p) IN
-              IF c = {} THEN {} ELSE IF PickK = 2 THEN {Median(c), SetMax(c)} ELSE {SetMin(c), Median(c), SetMax(c)}
-RECURSIVE ArgTuples(_)
-ArgTuples(ps) == IF Len(ps) = 0 THEN {<<>>}
-                 ELSE {<<a>> \\o rest : a \\in ArgPick(Head(ps)), rest \\in ArgTuples(Tail(ps))}
-CallPlan == UNION {{<<s, args>> : args \\in ArgTuples(Sigs[s].ps)} : s \\in 1..Len(Sigs)}
+ArgPick(p, n) == LET c == ArgsFor(p) IN
+                 IF c = {} THEN {}
+                 ELSE IF n = 1 THEN c                               \* unary functions: every matching value
+                 ELSE IF n = 2 \/ PickK = 3 THEN {SetMin(c), Median(c), SetMax(c)}
+                 ELSE {Median(c), SetMax(c)}
+RECURSIVE ArgTuples(_, _)
+ArgTuples(ps, n) == IF Len(ps) = 0 THEN {<<>>}
+                    ELSE {<<a>> \\o rest : a \\in ArgPick(Head(ps), n), rest \\in ArgTuples(Tail(ps), n)}
+CallPlan == UNION {{<<s, args>> : args \\in ArgTuples(Sigs[s].ps, Len(Sigs[s].ps))} : s \\in 1..Len(Sigs)}
 ASSUME PrintT(<<"nonreflexive", NonReflexive>>)
 ASSUME PrintT(<<"nontransitive", NonTransitive>>)
 ASSUME PrintT(<<"unsound", Unsound>>)
